@@ -92,6 +92,10 @@ AllEntries == <<
   E("pc_candidate", "endpoint", Conn, {"sdp.candidate"}),
   E("udptl", "endpoint", <<"est">>, {"udptl.packet"}),
   \* a PeerConnection in plain RTP mode: the whole media receive pipeline behind its RTP port
+  \* two PeerConnections over loopback (ICE + DTLS + SCTP + media); inputs from a third party to the victim's socket
+  E("pc_webrtc", "endpoint", Conn, {"stun.binding_req", "stun.binding_ok4", "stun.error401", "turn.channeldata",
+                                     "dg.clienthello", "dg.serverhello", "dg.cke", "dg.frag", "dg.opaque",
+                                     "rtp.plain", "rtp.ext1", "rtcp.rr", "rtcp.nack"}),
   E("pc_rtp", "endpoint", <<"pre", "est", "closing">>, RtpTpls \cup RtcpTpls \cup {"stun.binding_req"})
 >>
 
@@ -122,7 +126,8 @@ Modelled(e) == PhasesOf(e) \cup (IF Entry(e).kind = "endpoint" THEN Terminal ELS
 AllMuts == {"trunc_before", "trunc_before_fix", "trunc_inside", "trunc_inside_fix",
             "len_0", "len_m1", "len_p1", "len_max",
             "count_0", "count_p1", "count_max",
-            "tag_unknown", "val_0", "val_max", "dup", "dup_fill", "dup_fill_empty", "empty"}
+            "tag_unknown", "val_0", "val_max", "dup", "dup_fill", "dup_fill_empty", "empty",
+            "list_plus1", "list_minus1", "swap", "nest"}
 
 Applicable(l, m) ==
   IF l.k \in TextKinds
@@ -130,7 +135,7 @@ Applicable(l, m) ==
          [] m \in {"len_0", "len_m1", "len_p1", "len_max", "count_max"} -> l.k = "num"
                       \* 0, value-1, value+1, 2^bits - 1, 2^bits (just past the integer type)
          [] m = "tag_unknown" -> l.k = "word"
-         [] m \in {"dup", "dup_fill"} -> l.k = "line"
+         [] m \in {"dup", "dup_fill", "swap"} -> l.k = "line"
          [] m = "empty" -> l.k \in {"text", "num", "word"}                   \* empty token
          [] OTHER -> FALSE
   ELSE CASE m \in {"trunc_before", "trunc_before_fix"} -> ~l.ov /\ ~l.tail
@@ -141,6 +146,11 @@ Applicable(l, m) ==
          [] m \in {"val_0", "val_max"} -> l.k = "fixed" /\ ~l.ov /\ l.w <= 8     \* boundary values of a plain field
          [] m \in {"dup", "dup_fill", "dup_fill_empty"} -> l.el
          [] m = "empty" -> l.k \in {"var", "rest"}
+         \* a list of fixed-width elements whose byte length is not a multiple of the element width (one byte more /
+         \* one byte less, every enclosing length repaired so that the list walker is reached)
+         [] m \in {"list_plus1", "list_minus1"} -> l.ew > 1
+         \* the element exchanged with its successor; the element nested in its own value several levels deep
+         [] m \in {"swap", "nest"} -> l.el
          [] OTHER -> FALSE
 
 MaxLeaves == 100
